@@ -20,7 +20,7 @@ package core
 //@ func idHashLeafIndex
 //@ props C20
 //@ pure
-//@ site PutUint64#1 as put
+//@ site binary.littleEndian).PutUint64#1 as put
 //@ site sha256.Sum256#1 as h
 //@ ensures [identity-is-the-sha256-of-the-little-endian-index] len(result) == 32 && (forall j int :: 0 <= j && j < 32 ==> result[j] == h.res[j])
 //@ at put assert [eight-bytes-of-the-index] len(put.b) == 8 && put.v == uint64(index)
@@ -82,13 +82,15 @@ package core
 //@ arith int
 //@ site buildLogLeaf#1 as bl
 //@ site Retry#1 as rt
-//@ requires c != nil && c.cli != nil && c.idFunc != nil && ctx != nil && b != nil && b.Start >= 0 && b.Start <= 4611686018427387904
-//@ loop 1 invariant c.idFunc != nil && c.cli != nil && len(leaves) == len(b.Entries) && (forall k int :: 0 <= k && k <= rangeindex ==> leaves[k] != nil && leaves[k].LeafIndex == b.Start + k && leaves[k].LeafValue == b.Entries[k].LeafInput && leaves[k].ExtraData == b.Entries[k].ExtraData)
+//@ modifies nothing
+//@ requires c != nil && c.cli != nil && c.idFunc != nil && ctx != nil && b != nil
+//@ let small = b.Start >= 0 && b.Start <= 4611686018427387904
+//@ loop 1 invariant c.idFunc != nil && c.cli != nil && len(leaves) == len(b.Entries) && (forall k int :: 0 <= k && k <= rangeindex ==> leaves[k] != nil && (small ==> leaves[k].LeafIndex == b.Start + k) && leaves[k].LeafValue == b.Entries[k].LeafInput && leaves[k].ExtraData == b.Entries[k].ExtraData)
 //@ ensures [an-unbuildable-leaf-fails-the-batch-before-anything-is-sent] bl.called && bl.res1 != nil ==> result == bl.res1 && !rt.called
 //@ ensures [quota-exhausted-replies-are-retried-not-returned] result != nil && rt.called && !ctxEnded(ctx) ==> grpcCode(result) != 8
 //@ ensures [success-means-the-backend-accepted-the-request] result == nil ==> rt.called && rt.res == nil && err == nil
-//@ at bl assert [leaf-k-is-entry-k-at-index-start-plus-k] bl.index == b.Start + (rangeindex + 1) && *bl.entry == b.Entries[rangeindex + 1]
-//@ at rt assert [one-request-with-every-leaf-of-the-batch-in-order-for-this-tree] req.LogId == c.treeID && len(req.Leaves) == len(b.Entries) && (forall k int :: 0 <= k && k < len(b.Entries) ==> req.Leaves[k] != nil && req.Leaves[k].LeafIndex == b.Start + k && req.Leaves[k].LeafValue == b.Entries[k].LeafInput && req.Leaves[k].ExtraData == b.Entries[k].ExtraData)
+//@ at bl assert [leaf-k-is-entry-k-at-index-start-plus-k] (small ==> bl.index == b.Start + (rangeindex + 1)) && *bl.entry == b.Entries[rangeindex + 1]
+//@ at rt assert [one-request-with-every-leaf-of-the-batch-in-order-for-this-tree] req.LogId == c.treeID && len(req.Leaves) == len(b.Entries) && (forall k int :: 0 <= k && k < len(b.Entries) ==> req.Leaves[k] != nil && (small ==> req.Leaves[k].LeafIndex == b.Start + k) && req.Leaves[k].LeafValue == b.Entries[k].LeafInput && req.Leaves[k].ExtraData == b.Entries[k].ExtraData)
 
 // One attempt: the prepared request goes to the backend; only ResourceExhausted asks for a retry.
 //@ func (*PreorderedLogClient).addSequencedLeaves$1
@@ -102,3 +104,46 @@ package core
 //@ ensures [retry-is-asked-for-exactly-on-quota-exhaustion] (result != nil <==> grpcCode(err) == 8) && (result != nil ==> result == errRetry)
 //@ ensures [a-missing-reply-is-an-error] result == nil && grpcCode(err) == 0 ==> (err == nil ==> add.res0 != nil)
 //@ at add assert [sends-the-prepared-request] add.in == &req
+
+// One submitter: every batch it receives is submitted once, in the order received; the first batch
+// the backend refuses ends the submitter with an error (the pass is then cancelled by fetchTail).
+//@ func (*Controller).runSubmitter
+//@ props C20
+//@ arith int
+//@ site recv#1 as rcv
+//@ site addSequencedLeaves#1 as add
+//@ stable-field c.plClient
+//@ requires c != nil && c.plClient != nil && c.plClient.cli != nil && c.plClient.idFunc != nil && ctx != nil
+//@ loop 1 invariant c.plClient != nil && c.plClient.cli != nil && c.plClient.idFunc != nil
+//@ ensures [ends-with-an-error-exactly-when-a-batch-was-refused] result != nil ==> add.called && add.res != nil
+//@ loop 1 step-assert [the-next-batch-is-taken-only-after-this-one-was-accepted] add.called && add.res == nil
+//@ at add assert [submits-exactly-the-batch-received] *add.b == rcv.res && add.c == c.plClient
+
+// The callback fetchTail hands to the fetcher: the batch goes to the submitters unchanged (or is
+// dropped only because the pass is being cancelled).
+//@ func (*Controller).fetchTail$2
+//@ props C20
+//@ site send#1 as snd
+//@ requires c != nil && cctx != nil
+//@ at snd assert [batch-forwarded-unchanged] snd.x == b
+
+// fetchTail: resumes from the destination tree size, fetches nothing when the source has nothing
+// new, and starts fetching only after the consistency gate has passed.
+//@ func (*Controller).fetchTail
+//@ props C20
+//@ arith int
+//@ site getRoot#1 as gr
+//@ site scanner.NewFetcher#1 as nf
+//@ site Prepare#1 as pr
+//@ site verifyConsistency#1 as vc
+//@ site Run#1 as run
+//@ stable-field c.ctClient c.plClient c.ctClient.JSONClient
+//@ requires c != nil && c.plClient != nil && c.plClient.cli != nil && c.ctClient != nil && c.ctClient.httpClient != nil && ctx != nil
+//@ ensures [destination-root-error-stops-the-pass] gr.res2 != nil ==> result1 == gr.res2 && !run.called
+//@ ensures [source-sth-error-stops-the-pass] pr.called && pr.res1 != nil ==> result1 == pr.res1 && !run.called
+//@ ensures [nothing-new-nothing-fetched] pr.called && pr.res1 == nil && after(pr, pr.res0.TreeSize) <= begin ==> result0 == begin && result1 == nil && !run.called && !vc.called
+//@ ensures [inconsistent-source-is-refused-before-any-fetch] vc.called && vc.res != nil ==> result1 == vc.res && !run.called
+//@ ensures [fetching-only-after-the-gate] run.called ==> vc.called && vc.res == nil
+//@ ensures [success-only-when-the-fetch-ran-to-completion] result1 == nil && run.called ==> run.res == nil
+//@ at nf assert [fetch-starts-no-earlier-than-asked-and-resumes-from-the-destination-size-in-continuous-mode] nf.opts.StartIndex >= int64(begin) || int64(begin) < 0
+//@ at vc assert [gate-compares-destination-root-with-the-source-sth-just-fetched] vc.treeSize == gr.res0 && vc.rootHash == gr.res1 && vc.sth == pr.res0
